@@ -115,3 +115,89 @@ def dense_M(mjm, Mrow):
   out = np.zeros((mjm.nv, mjm.nv))
   mujoco.mju_sym2dense(out, np.array(Mrow, dtype=np.float64)[: mjm.nC], mjm.M_rownnz, mjm.M_rowadr, mjm.M_colind)
   return out
+
+
+# ------------------------------------------------------------------------------------ snapshots
+
+CONTACT_FIELDS = ("dist", "pos", "frame", "includemargin", "friction", "solref", "solreffriction", "solimp", "dim", "geom", "efc_address", "type")
+
+
+def contacts(d, w=None):
+  """Contacts of world w (all worlds if None) among the first min(nacon, naconmax) pool slots.
+
+  Returns dict name -> array plus 'slot' (pool indices) and 'nacon_raw'.
+  """
+  nacon_raw = int(npy(d.nacon)[0])
+  n = min(nacon_raw, d.naconmax)
+  wid = npy(d.contact.worldid)[:n]
+  sel = np.arange(n) if w is None else np.nonzero(wid == w)[0]
+  out = {"slot": sel, "nacon_raw": nacon_raw, "worldid": wid[sel]}
+  for k in CONTACT_FIELDS:
+    out[k] = np.array(npy(getattr(d.contact, k))[:n][sel])
+  return out
+
+
+def contact_sort_key(c):
+  """Canonical order of a contact dict: by geom pair, then position rounded to 1e-4, then dist."""
+  g = c["geom"].reshape(-1, 2)
+  p = np.round(c["pos"].reshape(-1, 3) / 1e-4).astype(np.int64)
+  keys = np.lexsort((np.round(c["dist"] / 1e-5).astype(np.int64), p[:, 2], p[:, 1], p[:, 0], g[:, 1], g[:, 0]))
+  return keys
+
+
+def sorted_contacts(c):
+  order = contact_sort_key(c)
+  return {k: (v[order] if isinstance(v, np.ndarray) and v.shape[:1] == order.shape else v) for k, v in c.items()}
+
+
+def efc_rows(mjm, m, d, w):
+  """Constraint rows of world w with a dense Jacobian (nefc, nv)."""
+  nefc = int(min(npy(d.nefc)[w], d.njmax))
+  out = {"nefc": nefc, "nefc_raw": int(npy(d.nefc)[w]), "ne": int(npy(d.ne)[w]), "nf": int(npy(d.nf)[w]), "nl": int(npy(d.nl)[w])}
+  for k in ("type", "id", "pos", "margin", "D", "vel", "aref", "frictionloss", "force", "state"):
+    out[k] = np.array(npy(getattr(d.efc, k))[w][:nefc])
+  nv = mjm.nv
+  if m.is_sparse:
+    J = np.zeros((nefc, nv))
+    rownnz = npy(d.efc.J_rownnz)[w]
+    rowadr = npy(d.efc.J_rowadr)[w]
+    colind = npy(d.efc.J_colind)[w].reshape(-1)
+    vals = npy(d.efc.J)[w].reshape(-1)
+    ok = True
+    for i in range(nefc):
+      a, n = int(rowadr[i]), int(rownnz[i])
+      if a < 0 or n < 0 or a + n > vals.size:
+        ok = False
+        continue
+      cols = colind[a : a + n]
+      if n and (cols.min() < 0 or cols.max() >= nv):
+        ok = False
+        continue
+      np.add.at(J[i], cols, vals[a : a + n])
+    out["J"] = J
+    out["J_ok"] = ok
+    out["nnz"] = int(rownnz[:nefc].sum())
+  else:
+    out["J"] = np.array(npy(d.efc.J)[w][:nefc, :nv], dtype=np.float64)
+    out["J_ok"] = True
+  return out
+
+
+def world_fields(d):
+  """Names of Data fields whose leading dimension is nworld (per-world observables)."""
+  import dataclasses
+
+  names = []
+  for f in dataclasses.fields(type(d)):
+    v = getattr(d, f.name, None)
+    if hasattr(v, "numpy") and hasattr(v, "shape") and len(v.shape) >= 1 and v.shape[0] == d.nworld:
+      spec = getattr(f.type, "shape", None)
+      if spec and spec[0] == "nworld":
+        names.append(f.name)
+  return names
+
+
+def snapshot(d, names=None):
+  """numpy copies of per-world Data arrays (all worlds)."""
+  names = names or world_fields(d)
+  return {k: np.array(npy(getattr(d, k))) for k in names}
